@@ -8,7 +8,7 @@ DESCRIPTION = {
              "per message (sendMessage w/ fragmentSize+sync, frame API, streaming API, prepared message, chopped sendFrame, sends from onOpen), "
              "a send interleaving and a read schedule.  Each case runs under four schedules (drawn splits, all-at-once, byte-wise/odd-chunk, and bursts of several reads per event-loop turn). "
              "Oracle: receiver onMessage log == sent list per direction; the octets each side wrote parse under an independent strict RFC 6455 "
-             "parser and reassemble (independent inflater when compressed) to the sent messages; schedules agree.  Non-trivial = a boundary "
+             "parser and reassemble (independent inflater when compressed) to the sent messages; schedules agree.  Compression settings include requested window sizes and context-takeover flags on both sides, and payloads of kind 'dup' (prefixes of one incompressible stream) make later messages refer back over 600-20000 octets.  Non-trivial = a boundary "
              "length, a fragmented message, a split inside a frame header, or frames coalesced with the handshake; distinct by digest of the case."),
     "assumptions": [
         "transport contract emulated in memory (Twisted ITransport / asyncio.Transport); real kernels and TLS are out of scope",
